@@ -33,5 +33,21 @@ pub fn four_cycles(c: bool, r: bool) -> (out: (bool, bool))
     next_state(s3.0, s3.1)
 }
 
+// the absolute/relative decision of cycle_endpoint for the three endpoint shapes ([$]col[$]row, row-only "5" / "$5", column-only "D" / "$D")
+pub open spec fn toggled_row_only(absolute_column: bool, absolute_row: bool) -> (bool, bool) { (false, !(absolute_column || absolute_row)) }
+pub fn endpoint_decision(column: &[char], row: &[char], absolute_column: bool, absolute_row: bool) -> (r: (bool, bool))
+    ensures
+        // a complete endpoint follows the four-state cycle
+        column@.len() > 0 && row@.len() > 0 ==> r == ns((absolute_column, absolute_row)),
+        // a row-only endpoint ("5" / "$5": a leading '$' was parsed as the column marker) toggles its single '$': period two
+        column@.len() == 0 ==> r.0 == false && r.1 == !(absolute_column || absolute_row),
+        // a column-only endpoint toggles its single '$'
+        column@.len() > 0 && row@.len() == 0 ==> r.1 == false && r.0 == !absolute_column,
+{
+//@fragment base/src/expressions/lexer/util.rs cycle_endpoint `let (new_column, new_row) = if column.is_empty() {` .. `};`
+//@end
+    (new_column, new_row)
+}
+
 } // verus!
 fn main() {}
